@@ -322,12 +322,14 @@ def build_cached(ctx, prog, backend):
             return exe, 'cached'
         rt = os.path.join(cache_dir(), 'ptg_rt-%s.o' % repo_key())
         if not os.path.exists(rt):
-            inc, _ = pvptg.cflags(ctx.build)
-            tmp = rt + '.%d.tmp' % os.getpid()
-            rc, o, e = pv.sh(['gcc', '-O1', '-g', '-mcx16', '-DPARSEC_VERIF', '-c', os.path.join(pv.ROOT, 'harness', 'ptg_rt.c'), '-o', tmp] + inc, timeout=600)
-            if rc != 0:
-                return None, 'ptg_rt.c: ' + (o + e)[-1500:]
-            os.replace(tmp, rt)
+            with pv.locked('ptgcache-rt'):
+                if not os.path.exists(rt):
+                    inc, _ = pvptg.cflags(ctx.build)
+                    tmp = rt + '.%d.tmp' % os.getpid()
+                    rc, o, e = pv.sh(['gcc', '-O1', '-g', '-mcx16', '-DPARSEC_VERIF', '-c', os.path.join(pv.ROOT, 'harness', 'ptg_rt.c'), '-o', tmp] + inc, timeout=600)
+                    if rc != 0:
+                        return None, 'ptg_rt.c: ' + (o + e)[-1500:]
+                    os.replace(tmp, rt)
         jdf = os.path.join(d, prog.name + '.jdf')
         open(jdf, 'w').write(text)
         rc, o, e = pv.sh([pvptg.ptgpp(ctx.build), '--noline', '-E', '--dep-management', backend, '-i', jdf, '-o', prog.name], cwd=d, timeout=300)
@@ -346,8 +348,10 @@ def prune_cache(max_entries=400):
     ent = [os.path.join(d, x) for x in os.listdir(d) if os.path.isdir(os.path.join(d, x))]
     if len(ent) <= max_entries:
         return
+    import time
+    ent = [p for p in ent if os.path.exists(os.path.join(p, 'ok')) or time.time() - os.path.getmtime(p) > 7200]      # never an entry being built
     ent.sort(key=lambda p: os.path.getmtime(os.path.join(p, 'ok')) if os.path.exists(os.path.join(p, 'ok')) else 0)
-    for p in ent[:len(ent) - max_entries]:
+    for p in ent[:max(0, len(ent) - max_entries)]:
         shutil.rmtree(p, ignore_errors=True)
 
 
@@ -560,6 +564,14 @@ def run_one(prog, g, exe, cfg, evaluate):
             r['oneoff'] = 'rc=%s cfg=%s not reproduced in %d re-runs; stderr in %s: %s' % (rc, cfg, tries, log, err[-200:])
         return r
     tr = parse_events(out)
+    if (tr['end'] or '').startswith('hang'):
+        # no body event for 20 s: a lost task — or 16 busy-waiting workers starved on an overloaded machine.  Run the same
+        # configuration again with a 90 s idle limit: a lost task stays lost.
+        rc2, out2, err2 = run_cfg(exe, g, cfg, timeout_ms=90000)
+        tr2 = parse_events(out2)
+        if rc2 == 0 and tr2['end'] == 'complete':
+            r['stats']['slow_machine_timeouts'] = 1
+            tr = tr2
     r['n'] = len(tr['events']) + 2
     try:
         evaluate(prog, g, cfg, tr, r)
@@ -612,6 +624,8 @@ def sweep(ctx, res, prop, work, evaluate, workers=5, stop_after=6):
             res.traces_validated += 1
         if r['n'] > 8:
             res.nontrivial('%s|%s|%s' % (p.ser(g), b, json.dumps(cfg, sort_keys=True)))
+        if r['stats'].get('slow_machine_timeouts'):
+            res.notes.append('a run hit the 20 s idle limit and completed when repeated with a 90 s limit (overloaded machine)')
         for k, v in r['stats'].items():
             res.extra.setdefault('run_stats', {})
             res.extra['run_stats'][k] = res.extra['run_stats'].get(k, 0) + v
